@@ -92,7 +92,7 @@ def main():
              'serves_properties': sorted(i for i in CHECKS if CHECKS[i][1] == 'E1')},
             {'name': 'E2', 'path': 'mc/kit.h', 'kind_free_text': 'explicit-state search over operation histories replayed on fresh objects, canonical state keys',
              'serves_properties': sorted(i for i in CHECKS if CHECKS[i][1] == 'E2')},
-            {'name': 'E3', 'path': 'mc/sched.h', 'kind_free_text': 'preemption-bounded cooperative scheduler over hooked yield points and interposed pthread_create/join + free-running TSan pass',
+            {'name': 'E3', 'path': 'mc/coopsched.h', 'kind_free_text': 'preemption-bounded cooperative scheduler over hooked yield points and interposed pthread_create/join + free-running TSan pass',
              'serves_properties': sorted(i for i in CHECKS if CHECKS[i][1] == 'E3')},
             {'name': 'E4', 'path': 'checks/C12.cc', 'kind_free_text': 'document-fault enumerator: every single byte/token/tree deviation of base documents loaded in a forked sanitizer-build child',
              'serves_properties': sorted(i for i in CHECKS if CHECKS[i][1] == 'E4')},
